@@ -387,3 +387,42 @@ Example ex_memoised_index_refuted :
   r1 = None /\ snd (memo_by_id m2 301) = None /\       (* the stale index still answers: not found *)
   toc_by_id (m_table m2) 301 = Some (mkT 1 301 1).     (* although the element is in the table *)
 Proof. vm_compute. repeat split; reflexivity. Qed.
+
+(* ---------------------------------------------------------------- the same configuration added again within one session (wave 17) *)
+(* Log._find_block: the first configuration of log_blocks whose CURRENT id is the packet's id *)
+Lemma find_block_current_id s id h : find_block s id = Some h -> c_id (get s h) = id /\ In h (s_blocks s).
+Proof.
+  unfold find_block. intros H. apply find_some in H as [A B]. split; [now apply Z.eqb_eq in B|exact A].
+Qed.
+
+(* a data packet reaches a configuration only under its current id *)
+Lemma logdata_only_current_id s data h ts vals :
+  In (OData h ts vals) (snd (fst (on_packet s g_chan_logdata data))) -> exists r, data = c_id (get s h) :: r.
+Proof.
+  unfold on_packet. destruct data as [|cmd payload]; [intros []|].
+  change (g_chan_logdata =? g_chan_settings) with false. change (g_chan_logdata =? g_chan_logdata) with true. cbn iota.
+  unfold on_logdata. destruct payload as [|b0 [|b1 [|b2 rest]]]; try (intros []).
+  destruct (find_block s cmd) as [h0|] eqn:Ef; [|intros []].
+  destruct (unpack_vars _ _ _); [|intros []]. intros [H|[]]. inversion H; subst.
+  apply find_block_current_id in Ef as [E _]. exists (b0 :: b1 :: b2 :: rest). now rewrite E.
+Qed.
+
+(* add, start, stop, delete (block id 1), add the same object again (id 2), start: traffic with id 1 *)
+Definition ex_readd_same_session : list ev :=
+  ex_session ++ [ENew 100 1; EAddVar 0 1 1; EAddConfig 0; EStart 0; EPacket 1 [6; 1; 0]; EPacket 1 [3; 1; 0];
+                 EStop 0; EPacket 1 [4; 1; 0]; EDelete 0; EPacket 1 [2; 1; 0];
+                 EAddConfig 0; EStart 0; EPacket 1 [6; 2; 0]; EPacket 1 [3; 2; 0]].
+
+(* an id -> configuration map that is filled by add_config and never loses an id (seeded/C05-q) *)
+Definition stale_map_lookup (m : list (Z * nat)) (id : Z) : option nat :=
+  match find (fun p => fst p =? id) m with Some p => Some (snd p) | None => None end.
+
+Example ex_old_id_traffic_ignored :
+  let s := final init_st ex_readd_same_session in
+  c_id (get s 0) = 2 /\ flags (get s 0) = (true, true) /\
+  find_block s 1 = None /\ find_block s 2 = Some 0%nat /\
+  on_packet s 2 [1; 9; 9; 9; 90] = (s, [], None) /\            (* late data of the deleted block: dropped *)
+  on_packet s 1 [4; 1; 0] = (s, [], None) /\                   (* duplicated STOP acknowledgement of block 1 *)
+  on_packet s 1 [2; 1; 0] = (s, [], None) /\                   (* duplicated DELETE acknowledgement of block 1 *)
+  stale_map_lookup [(1, 0%nat); (2, 0%nat)] 1 = Some 0%nat.     (* the stale map still finds the configuration *)
+Proof. vm_compute. repeat split; reflexivity. Qed.
